@@ -289,9 +289,9 @@ pub fn gen_case(seed: u64, idx: usize) -> Case {
 
 pub fn n_cases(tier: &str) -> usize {
     if tier == "thorough" {
-        6_000
+        30_000
     } else {
-        432
+        1_296
     }
 }
 
